@@ -7,6 +7,7 @@
 //!   I:i:j:<hexkey>    insert slot i into object slot j   O:j  pop of array slot j into a new slot
 //!   R:j:<hexkey>      remove from object slot j into a new slot
 //!   S:<hexstream>     open a Deserializer over the stream; V:<hexdoc>:<first> its next value; E close
+//!   F:<first>         the next value of the stream is malformed (a lone `]`): the attempt fails
 //! output: per step `shape shape ..|released arenas` joined by `;`, then ` content=.. leak=.. arenas=..`
 //! case: `c16 x <hexdoc> <threads> <iters>`  concurrent stress; output `ok` or a description
 use crate::c18::{tracked, LIVE};
@@ -66,12 +67,12 @@ pub fn run_history(threaded: bool, prog: &str) -> String {
         match p[0] {
             "P" => {
                 let doc = unhex(p[1]);
-                match tracked(|| sonic_rs::from_slice::<Value>(&doc)) {
+                match tracked(|| sonic_rs::from_slice::<Value>(&doc).map_err(drop)) {
                     Ok(v) => {
                         slots.push(v);
                         refs.push(serde_json::from_slice(&doc).unwrap());
                     }
-                    Err(_) => ok = false,
+                    Err(()) => ok = false,
                 }
             }
             "C" => {
@@ -233,12 +234,23 @@ pub fn run_history(threaded: bool, prog: &str) -> String {
                 de = Some(tracked(|| DeState { de: sonic_rs::Deserializer::from_slice(buf) }));
             }
             "V" => match de.as_mut() {
-                Some(d) => match tracked(|| Value::deserialize(&mut d.de)) {
+                Some(d) => match tracked(|| Value::deserialize(&mut d.de).map_err(drop)) {
                     Ok(v) => {
                         slots.push(v);
                         refs.push(serde_json::from_slice(&unhex(p[1])).unwrap());
                     }
-                    Err(_) => ok = false,
+                    Err(()) => ok = false,
+                },
+                None => ok = false,
+            },
+            "F" => match de.as_mut() {
+                // the next value of the stream is malformed (a lone `]`): one failing attempt
+                Some(d) => match tracked(|| Value::deserialize(&mut d.de)) {
+                    Ok(v) => {
+                        tracked(|| drop(v));
+                        ok = false;
+                    }
+                    Err(e) => tracked(|| drop(e)),
                 },
                 None => ok = false,
             },
@@ -538,7 +550,8 @@ fn gen_history(r: &mut Rng, len: usize, allow_de: bool) -> String {
                 }
                 if !de_open && r.chance(1, 3) {
                     let k = 2 + r.below(3);
-                    let docs: Vec<String> = (0..k).map(|_| pick_doc(r)).collect();
+                    // (a malformed first value leaves the reader at index 0 for ever: only later values may be malformed)
+                    let docs: Vec<String> = (0..k).map(|n| if n > 0 && r.chance(1, 4) { "]".to_string() } else { pick_doc(r) }).collect();
                     let lead = if r.chance(1, 3) { " " } else { "" };
                     let stream = format!("{}{}", lead, docs.join(" "));
                     ops.push(format!("S:{}", hex(stream.as_bytes())));
@@ -547,8 +560,12 @@ fn gen_history(r: &mut Rng, len: usize, allow_de: bool) -> String {
                     de_first = true;
                 } else if de_open && !de_left.is_empty() {
                     let d = de_left.remove(0);
-                    slots.push(sonic_rs::from_str(&d).unwrap());
-                    ops.push(format!("V:{}:{}", hex(d.as_bytes()), if de_first { 1 } else { 0 }));
+                    if d == "]" {
+                        ops.push(format!("F:{}", if de_first { 1 } else { 0 }));
+                    } else {
+                        slots.push(sonic_rs::from_str(&d).unwrap());
+                        ops.push(format!("V:{}:{}", hex(d.as_bytes()), if de_first { 1 } else { 0 }));
+                    }
                     de_first = false;
                 } else if de_open {
                     ops.push("E".into());
@@ -610,6 +627,9 @@ pub fn gen(seed: u64, thorough: bool) {
         format!("P:{d2};P:{d1};U:0:0;C:0;O:0;D:0;D:0;D:0"),
         format!("S:{};V:{d1}:1;V:{d2}:0;V:{}:0;E;D:0;D:0;D:0", h("[1,\"a\",[2,\"b\"]] {\"a\":[1,\"x\"],\"b\":{\"c\":\"y\"},\"d\":2} \"s\""), h("\"s\"")),
         format!("S:{};V:{d1}:1;V:{d2}:0;D:1;D:0;E", h("[1,\"a\",[2,\"b\"]] {\"a\":[1,\"x\"],\"b\":{\"c\":\"y\"},\"d\":2}")),
+        // a malformed value in the middle of a stream: the values before it stay intact, the ones after it are independent
+        format!("S:{};V:{d1}:1;V:{d2}:0;F:0;V:{d1}:0;H:1:0:{};E;D:0;D:0;D:0;D:0", h("[1,\"a\",[2,\"b\"]] {\"a\":[1,\"x\"],\"b\":{\"c\":\"y\"},\"d\":2} ] [1,\"a\",[2,\"b\"]]"), h("a")),
+        format!("S:{};F:1;F:1;E", h("] [1]")),
     ] {
         out.line(&format!("c16 s {f}"));
         out.line(&format!("c16 t {f}"));
